@@ -1,9 +1,1245 @@
-//! C06 — (stub; not built yet)
+//! C06 — deterministic partitioners give the same partition for every thread count.
+//!
+//! Ops (inputs are regenerated from the seeds in the op line, so a line replays exactly):
+//!
+//! * `part <algo> <stream> <dim> <n> <shape> <wmode> <seed> <p1> <p2> <digest|->`
+//!     algo ∈ rcb rib hilbert zcurve kmeans mj; stream `g` = generic integer cloud, `x` = exact-frame
+//!     cloud (symmetric around an integral centroid: every f64 sum of the frame computation is exact).
+//!     The same input is run under every pool size of the tier × repetitions and the ids are compared
+//!     EXACTLY (MultiJagged after renaming by first occurrence).  out: `same <digest>` where the digest
+//!     hashes the outcome under pool size 1, or `differs …`.  The recorded op line carries the digest,
+//!     the model's claim is "same for every T": the driver echoes `same <digest>`.  When the input is
+//!     outside the premise of the theorems (a frame is built and its sums are not exact: K6 applies) the
+//!     digest is prefixed `inexact-frame:` and the driver prints `skip`; the oracle still compares.
+//! * `dual <kind> <nx> <ny> <nz> <seed> <digest|->`  the tools' dual graph, CSR arrays byte-wise.
+//! * `parsum gen <seed> <n> <lo> <hi>` | `parsum lit <n> <v…>`  rayon's own `sum`, `fold/reduce`,
+//!     `fold_with/reduce_with`, `filter/count`, `map/collect` under several pools and `with_max_len`
+//!     splits against `parFold` over several split trees in the model.
+//! * `bbox <dim> <seed> <n> <lo> <hi>`  the real `BoundingBox::from_points`.
+//! * `rcbsplit <seed> <n> <lo> <hi> <wmax> <min> <max>`  the real `par_rcb_split` (hook), one
+//!     evaluation of its 4-tuple fold/reduce, against `parNearest` over several split trees.
+//! * `mjsplit <seed> <n> <wmax> <k> {<num> <den>}*k`  the real `compute_split_positions` (hook),
+//!     against `mjSplit` over several split trees.
 
 use crate::common::*;
+use coupe::rayon::prelude::*;
+use coupe::Partition as _;
+use coupe::{Point2D, Point3D};
+use std::sync::OnceLock;
 
-pub fn generate(_ctx: &mut Ctx) {}
+// ------------------------------------------------------------------ pools
+
+static POOLS: OnceLock<Vec<coupe::rayon::ThreadPool>> = OnceLock::new();
+
+/// Pools of 1…16 workers, built once (warm pools: the interleavings of later
+/// cases differ from those of earlier ones, which is what we want).
+fn pool(t: usize) -> &'static coupe::rayon::ThreadPool {
+    let pools = POOLS.get_or_init(|| {
+        (1..=16)
+            .map(|t| coupe::rayon::ThreadPoolBuilder::new().num_threads(t).build().expect("pool"))
+            .collect()
+    });
+    &pools[t - 1]
+}
+
+fn in_pool<T: Send>(t: usize, f: impl FnOnce() -> T + Send) -> Caught<T> {
+    catch(|| pool(t).install(f))
+}
+
+fn pool_sizes(quick: bool) -> Vec<usize> {
+    if quick {
+        vec![1, 2, 3, 4, 8, 16]
+    } else {
+        (1..=16).collect()
+    }
+}
+
+fn fnv(words: impl Iterator<Item = u64>) -> u64 {
+    let mut h = 0xcbf2_9ce4_8422_2325u64;
+    for w in words {
+        for b in w.to_le_bytes() {
+            h ^= b as u64;
+            h = h.wrapping_mul(0x0000_0100_0000_01b3);
+        }
+    }
+    h
+}
+
+fn fnv_str(s: &str) -> u64 {
+    fnv(s.bytes().map(|b| b as u64))
+}
+
+/// Renaming by first occurrence (`Coupe.Par.canon`).
+fn canon(ids: &[usize]) -> Vec<usize> {
+    let mut map = std::collections::HashMap::new();
+    ids.iter()
+        .map(|i| {
+            let n = map.len();
+            *map.entry(*i).or_insert(n)
+        })
+        .collect()
+}
+
+// ------------------------------------------------------------------ clouds
+
+#[derive(Clone)]
+struct Cloud {
+    /// integer coordinates, `dim` per point
+    pts: Vec<[i64; 3]>,
+    /// integer weights
+    ws: Vec<i64>,
+    /// every f64 sum of the frame computation is exact (decided from the data, not from the stream)
+    exact_frame: bool,
+}
+
+/// Decides `ExactSums` for the frame computation: integral centroid, all sums of
+/// absolute values below 2^53.
+fn exact_frame(pts: &[[i64; 3]], dim: usize) -> bool {
+    let n = pts.len() as i128;
+    if n == 0 {
+        return true;
+    }
+    let lim = 1i128 << 53;
+    let mut c = [0i128; 3];
+    for k in 0..dim {
+        let s: i128 = pts.iter().map(|p| p[k] as i128).sum();
+        let a: i128 = pts.iter().map(|p| (p[k] as i128).abs()).sum();
+        if a >= lim || s % n != 0 {
+            return false;
+        }
+        c[k] = s / n;
+    }
+    for i in 0..dim {
+        for j in 0..dim {
+            let a: i128 = pts.iter().map(|p| ((p[i] as i128 - c[i]) * (p[j] as i128 - c[j])).abs()).sum();
+            if a >= lim {
+                return false;
+            }
+        }
+    }
+    true
+}
+
+fn gen_weights(rng: &mut Rng, n: usize, wmode: usize) -> Vec<i64> {
+    (0..n)
+        .map(|_| match wmode {
+            0 => 1,
+            1 => rng.range(1, 9),
+            2 => {
+                if rng.chance(1, 50) {
+                    rng.range(100, 1000)
+                } else {
+                    rng.range(1, 4)
+                }
+            }
+            _ => rng.range(0, 3), // zeros allowed
+        })
+        .collect()
+}
+
+/// Stream (i): generic integer clouds.
+fn generic_cloud(seed: u64, dim: usize, n: usize, shape: usize, wmode: usize) -> Cloud {
+    let mut rng = Rng::new(seed);
+    let mut pts = Vec::with_capacity(n);
+    let r = 1000i64;
+    let ncl = 3 + (seed % 4) as usize;
+    let centres: Vec<[i64; 3]> = (0..ncl).map(|_| [rng.range(-r, r), rng.range(-r, r), rng.range(-r, r)]).collect();
+    for i in 0..n {
+        let mut p = [0i64; 3];
+        match shape {
+            // near-isotropic box
+            0 => {
+                for k in 0..dim {
+                    p[k] = rng.range(0, r);
+                }
+            }
+            // elongated box
+            1 => {
+                for k in 0..dim {
+                    p[k] = rng.range(0, if k == 0 { 8 * r } else { r / 2 });
+                }
+            }
+            // blobs
+            2 => {
+                let c = centres[rng.usize(ncl)];
+                for k in 0..dim {
+                    p[k] = c[k] + rng.range(-60, 60) + rng.range(-60, 60) + rng.range(-60, 60);
+                }
+            }
+            // tiny alphabet: many duplicates and ties
+            3 => {
+                for k in 0..dim {
+                    p[k] = rng.range(0, 20);
+                }
+            }
+            // diagonal band: the frame is a genuine rotation
+            4 => {
+                let t = rng.range(-2 * r, 2 * r);
+                for k in 0..dim {
+                    p[k] = t * (k as i64 + 1) + rng.range(-40, 40);
+                }
+            }
+            // ring / shell: isotropic
+            5 => loop {
+                let mut q = [0i64; 3];
+                let mut d2 = 0;
+                for k in 0..dim {
+                    q[k] = rng.range(-r, r);
+                    d2 += q[k] * q[k];
+                }
+                if d2 <= r * r && d2 >= (r * r * 4) / 5 {
+                    p = q;
+                    break;
+                }
+            },
+            // regular lattice in index order
+            _ => {
+                let side = (n as f64).powf(1.0 / dim as f64).ceil() as usize;
+                let mut j = i;
+                for k in 0..dim {
+                    p[k] = (j % side.max(1)) as i64;
+                    j /= side.max(1);
+                }
+            }
+        }
+        pts.push(p);
+    }
+    let ws = gen_weights(&mut rng, n, wmode);
+    let exact = exact_frame(&pts, dim);
+    Cloud { pts, ws, exact_frame: exact }
+}
+
+/// Stream (ii): "exact-frame" clouds. Offsets come in full sign orbits around an
+/// integral centre, so the centroid is that centre, the inertia matrix is
+/// diagonal, its entries are sums of small integer products (exact in any
+/// order) and one axis dominates clearly.
+fn exact_cloud(seed: u64, dim: usize, n: usize, shape: usize, wmode: usize) -> Cloud {
+    let mut rng = Rng::new(seed ^ 0x5eed);
+    let orbit = 1usize << dim;
+    let m = n / orbit;
+    let main_axis = shape % dim;
+    let (big, small) = match shape / 3 {
+        0 => (2000i64, 100i64),
+        1 => (40, 5), // many ties
+        _ => (500, 200),
+    };
+    let centre = [rng.range(-50, 50), rng.range(-50, 50), rng.range(-50, 50)];
+    let mut pts = Vec::with_capacity(m * orbit);
+    for _ in 0..m {
+        let mut d = [0i64; 3];
+        for k in 0..dim {
+            d[k] = rng.range(0, if k == main_axis { big } else { small });
+        }
+        for s in 0..orbit {
+            let mut p = [0i64; 3];
+            for k in 0..dim {
+                p[k] = centre[k] + if s >> k & 1 == 1 { -d[k] } else { d[k] };
+            }
+            pts.push(p);
+        }
+    }
+    rng.shuffle(&mut pts);
+    let ws = gen_weights(&mut rng, pts.len(), wmode);
+    let exact = exact_frame(&pts, dim);
+    Cloud { pts, ws, exact_frame: exact }
+}
+
+// ------------------------------------------------------------------ running the partitioners
+
+#[derive(Clone, PartialEq, Eq, Debug)]
+enum Outcome {
+    Ids(Vec<usize>),
+    Err(String),
+    /// class of the panic (line numbers and numbers in the message removed)
+    Panic(String),
+}
+
+impl Outcome {
+    fn digest(&self) -> String {
+        match self {
+            Outcome::Ids(v) => format!("{:016x}", fnv(v.iter().map(|x| *x as u64))),
+            Outcome::Err(e) => format!("err:{:08x}", fnv_str(e) as u32),
+            Outcome::Panic(c) => format!("panic:{:08x}", fnv_str(c) as u32),
+        }
+    }
+}
+
+struct Params {
+    algo: String,
+    p1: usize,
+    p2: usize,
+}
+
+fn initial_partition(n: usize, k: usize, mode: usize) -> Vec<usize> {
+    // k-means needs every id 0..k to occur
+    (0..n).map(|i| if mode == 0 { i % k } else { (i * k / n.max(1)).min(k - 1) }).collect()
+}
+
+macro_rules! run_dim {
+    ($name:ident, $frames:ident, $D:expr, $P:ty) => {
+        fn $name(cloud: &Cloud, prm: &Params, threads: usize) -> Outcome {
+            let points: Vec<$P> = cloud
+                .pts
+                .iter()
+                .map(|p| {
+                    let mut q = <$P>::zeros();
+                    for k in 0..$D {
+                        q[k] = p[k] as f64;
+                    }
+                    q
+                })
+                .collect();
+            let n = points.len();
+            let wf: Vec<f64> = cloud.ws.iter().map(|w| *w as f64).collect();
+            let wi: Vec<i64> = cloud.ws.clone();
+            let algo = prm.algo.as_str();
+            let (p1, p2) = (prm.p1, prm.p2);
+            let res = in_pool(threads, move || -> Result<Vec<usize>, String> {
+                let mut ids = vec![0usize; n];
+                let tol = [0.0, 0.05, 0.1][p2 % 3];
+                match algo {
+                    "rcb" => coupe::Rcb { iter_count: p1, tolerance: tol }
+                        .partition(&mut ids, (points.par_iter().cloned(), wi.par_iter().cloned()))
+                        .map_err(|e| format!("{:?}", e))?,
+                    // f64 weights with integer values: sums stay exact
+                    "rcbf" => coupe::Rcb { iter_count: p1, tolerance: tol }
+                        .partition(&mut ids, (points.par_iter().cloned(), wf.par_iter().cloned()))
+                        .map_err(|e| format!("{:?}", e))?,
+                    "rib" => coupe::Rib { iter_count: p1, tolerance: tol }
+                        .partition(&mut ids, (&points[..], wi.par_iter().cloned()))
+                        .map_err(|e| format!("{:?}", e))?,
+                    "hilbert" => coupe::HilbertCurve { part_count: p1, order: p2 as u32 }
+                        .partition(&mut ids, (&points[..], &wf[..]))
+                        .map_err(|e| format!("{:?}", e))?,
+                    "zcurve" => coupe::ZCurve { part_count: p1, order: p2 as u32 }
+                        .partition(&mut ids, &points[..])
+                        .map_err(|e| format!("{:?}", e))?,
+                    "mj" => coupe::MultiJagged { part_count: p1, max_iter: p2 }
+                        .partition(&mut ids, (&points[..], &wf[..]))
+                        .map_err(|e| format!("{:?}", e))?,
+                    "kmeans" => {
+                        ids = initial_partition(n, p1.max(1), p2 % 2);
+                        coupe::KMeans {
+                            max_iter: 8 + 4 * (p2 / 2 % 3),
+                            max_balance_iter: 1 + p2 / 6 % 3,
+                            delta_threshold: if p2 / 18 % 2 == 0 { 0.01 } else { 0.0 },
+                            ..Default::default()
+                        }
+                        .partition(&mut ids, (&points[..], &wf[..]))
+                        .map_err(|e| format!("{:?}", e))?
+                    }
+                    _ => return Err("unknown-algo".into()),
+                }
+                Ok(ids)
+            });
+            match res {
+                Caught::Ok(Ok(ids)) => Outcome::Ids(if prm.algo == "mj" { canon(&ids) } else { ids }),
+                Caught::Ok(Err(e)) => Outcome::Err(e),
+                Caught::Panic(m) => Outcome::Panic(panic_sig(&m)),
+                Caught::Hang => Outcome::Panic("hang".into()),
+            }
+        }
+
+        /// The matrix of the oriented-bounding-box frame (hook), as bit patterns.
+        fn $frames(cloud: &Cloud, threads: usize) -> Option<Vec<u64>> {
+            let points: Vec<$P> = cloud
+                .pts
+                .iter()
+                .map(|p| {
+                    let mut q = <$P>::zeros();
+                    for k in 0..$D {
+                        q[k] = p[k] as f64;
+                    }
+                    q
+                })
+                .collect();
+            match in_pool(threads, move || coupe::verif::geometry::obb_frame::<$D>(&points)) {
+                Caught::Ok(Some((_mapped, m))) => Some(m.iter().map(|x| x.to_bits()).collect()),
+                _ => None,
+            }
+        }
+    };
+}
+
+run_dim!(run_2d, frame_2d, 2, Point2D);
+run_dim!(run_3d, frame_3d, 3, Point3D);
+
+fn run_algo(cloud: &Cloud, dim: usize, prm: &Params, threads: usize) -> Outcome {
+    if dim == 2 {
+        run_2d(cloud, prm, threads)
+    } else {
+        run_3d(cloud, prm, threads)
+    }
+}
+
+fn frame(cloud: &Cloud, dim: usize, threads: usize) -> Option<Vec<u64>> {
+    if dim == 2 {
+        frame_2d(cloud, threads)
+    } else {
+        frame_3d(cloud, threads)
+    }
+}
+
+/// Distinct frame matrices seen over `tries` evaluations under each given pool size.
+fn distinct_frames(cloud: &Cloud, dim: usize, pools: &[usize], tries: usize) -> usize {
+    let mut seen: Vec<Option<Vec<u64>>> = vec![];
+    for &t in pools {
+        for _ in 0..tries {
+            let f = frame(cloud, dim, t);
+            if !seen.contains(&f) {
+                seen.push(f);
+            }
+        }
+    }
+    seen.len()
+}
+
+struct PartResult {
+    out: String,
+    digest: String,
+    fail: Option<(String, String)>,
+    counts: Vec<String>,
+    n: usize,
+}
+
+fn uses_frame(algo: &str) -> bool {
+    matches!(algo, "rib" | "hilbert" | "zcurve" | "kmeans")
+}
+
+#[allow(clippy::too_many_arguments)]
+fn part_case(
+    algo: String,
+    stream: String,
+    dim: usize,
+    n: usize,
+    shape: usize,
+    wmode: usize,
+    seed: u64,
+    p1: usize,
+    p2: usize,
+    pools: Vec<usize>,
+    reps: usize,
+) -> PartResult {
+    let cloud = if stream == "x" { exact_cloud(seed, dim, n, shape, wmode) } else { generic_cloud(seed, dim, n, shape, wmode) };
+    let prm = Params { algo: algo.clone(), p1, p2 };
+    let mut counts = vec![];
+    let reference = run_algo(&cloud, dim, &prm, 1);
+    let digest = reference.digest();
+    counts.push(
+        match &reference {
+            Outcome::Ids(_) => "outcome:ids",
+            Outcome::Err(_) => "outcome:err",
+            Outcome::Panic(_) => "outcome:panic-identical-or-not",
+        }
+        .to_string(),
+    );
+    if cloud.exact_frame {
+        counts.push("input:exact-frame".into());
+    } else {
+        counts.push("input:inexact-frame".into());
+    }
+    let mut first_diff: Option<(usize, usize, String)> = None;
+    let mut ndiff_runs = 0usize;
+    let mut runs = 0usize;
+    for &t in &pools {
+        for rep in 0..reps {
+            if t == 1 && rep == 0 {
+                continue;
+            }
+            let o = run_algo(&cloud, dim, &prm, t);
+            runs += 1;
+            if o != reference {
+                ndiff_runs += 1;
+                if first_diff.is_none() {
+                    let what = match (&reference, &o) {
+                        (Outcome::Ids(a), Outcome::Ids(b)) => {
+                            let nd = a.iter().zip(b).filter(|(x, y)| x != y).count();
+                            let fi = a.iter().zip(b).position(|(x, y)| x != y).unwrap_or(0);
+                            format!("{} of {} ids differ, first at {}: {} vs {}", nd, a.len(), fi, a.get(fi).unwrap_or(&0), b.get(fi).unwrap_or(&0))
+                        }
+                        (a, b) => format!("outcome {} vs {}", a.digest(), b.digest()),
+                    };
+                    first_diff = Some((t, rep, what));
+                }
+            }
+        }
+    }
+    // latent K6: does the frame itself depend on the pool? (informative, and the
+    // exact-frame stream must never show it)
+    let mut fail = None;
+    let nframes = if uses_frame(&algo) && cloud.pts.len() > 0 { distinct_frames(&cloud, dim, &[1, 2, 4, 8, 16], 2) } else { 1 };
+    if uses_frame(&algo) {
+        counts.push(format!("frame-varies-with-pool:{}", if nframes > 1 { "yes" } else { "no" }));
+    }
+    if nframes > 1 && cloud.exact_frame {
+        fail = Some((
+            "obb-frame-varies-on-exact-input".to_string(),
+            format!("{} distinct frame matrices although every sum of the frame computation is exact", nframes),
+        ));
+    }
+    let out = match first_diff {
+        None => format!("same {}", digest),
+        Some((t, rep, what)) => {
+            // cause signature
+            let (sig, why) = if uses_frame(&algo) && !cloud.exact_frame {
+                let nf = if nframes > 1 { nframes } else { distinct_frames(&cloud, dim, &[1, t, t, 16, 8, 3], 10) };
+                if nf > 1 {
+                    (
+                        "k6-obb-frame-depends-on-pool".to_string(),
+                        format!("{} ids under {} threads (rep {}) vs 1 thread: {}; {} distinct OBB matrices across pools (inertia sums are inexact: non-integral centroid)", algo, t, rep, what, nf),
+                    )
+                } else {
+                    (
+                        format!("nondeterministic-ids-{}", algo),
+                        format!("{} threads (rep {}) vs 1 thread: {}; OBB matrices identical across pools", t, rep, what),
+                    )
+                }
+            } else {
+                (
+                    format!("nondeterministic-ids-{}{}", algo, if cloud.exact_frame { "-exact-input" } else { "" }),
+                    format!("{} threads (rep {}) vs 1 thread: {}", t, rep, what),
+                )
+            };
+            counts.push(format!("differs:{}", algo));
+            if fail.is_none() {
+                fail = Some((sig, why));
+            }
+            format!("differs T={} rep={} runs={}/{}", t, rep, ndiff_runs, runs)
+        }
+    };
+    // Inputs outside the premise of the theorems (the frame is built from sums that round):
+    // the model makes no claim, the op line says so and the driver prints `skip`.
+    let digest = if uses_frame(&algo) && !cloud.exact_frame { format!("inexact-frame:{}", digest) } else { digest };
+    let out = if out.starts_with("same ") { format!("same {}", digest) } else { out };
+    PartResult { out, digest, fail, counts, n: cloud.pts.len() }
+}
+
+// ------------------------------------------------------------------ dual graph
+
+fn build_grid_mesh(kind: &str, nx: usize, ny: usize, nz: usize, seed: u64) -> mesh_io::Mesh {
+    use mesh_io::ElementType::*;
+    let mut rng = Rng::new(seed);
+    let node2 = |i: usize, j: usize| j * (nx + 1) + i;
+    let node3 = |i: usize, j: usize, k: usize| (k * (ny + 1) + j) * (nx + 1) + i;
+    let three_d = kind == "hex" || kind == "tet";
+    let nn = if three_d { (nx + 1) * (ny + 1) * (nz + 1) } else { (nx + 1) * (ny + 1) };
+    let space = if three_d { 3 } else { 2 };
+    let mut coords = Vec::with_capacity(nn * space);
+    for v in 0..nn {
+        coords.push((v % (nx + 1)) as f64);
+        coords.push((v / (nx + 1) % (ny + 1)) as f64);
+        if three_d {
+            coords.push((v / ((nx + 1) * (ny + 1))) as f64);
+        }
+    }
+    let mut tris: Vec<[usize; 3]> = vec![];
+    let mut quads: Vec<[usize; 4]> = vec![];
+    let mut hexes: Vec<[usize; 8]> = vec![];
+    let mut tets: Vec<[usize; 4]> = vec![];
+    let mut edges: Vec<[usize; 2]> = vec![];
+    if three_d {
+        for k in 0..nz {
+            for j in 0..ny {
+                for i in 0..nx {
+                    let c = [
+                        node3(i, j, k),
+                        node3(i + 1, j, k),
+                        node3(i + 1, j + 1, k),
+                        node3(i, j + 1, k),
+                        node3(i, j, k + 1),
+                        node3(i + 1, j, k + 1),
+                        node3(i + 1, j + 1, k + 1),
+                        node3(i, j + 1, k + 1),
+                    ];
+                    if kind == "hex" {
+                        hexes.push(c);
+                    } else {
+                        // five tetrahedra per cube
+                        for t in [[0, 1, 3, 4], [1, 2, 3, 6], [1, 4, 5, 6], [3, 4, 6, 7], [1, 3, 4, 6]] {
+                            tets.push([c[t[0]], c[t[1]], c[t[2]], c[t[3]]]);
+                        }
+                    }
+                }
+            }
+        }
+    } else {
+        for j in 0..ny {
+            for i in 0..nx {
+                let c = [node2(i, j), node2(i + 1, j), node2(i + 1, j + 1), node2(i, j + 1)];
+                let as_tri = match kind {
+                    "tri" => true,
+                    "quad" => false,
+                    _ => rng.chance(1, 2), // mixed: two element blocks
+                };
+                if as_tri {
+                    tris.push([c[0], c[1], c[2]]);
+                    tris.push([c[0], c[2], c[3]]);
+                } else {
+                    quads.push(c);
+                }
+                if kind == "mixed" && i == 0 {
+                    edges.push([c[0], c[3]]); // lower-dimensional block: ignored by dual
+                }
+            }
+        }
+    }
+    rng.shuffle(&mut tris);
+    rng.shuffle(&mut quads);
+    rng.shuffle(&mut hexes);
+    rng.shuffle(&mut tets);
+    let mut topo = vec![];
+    let mut push = |ty, flat: Vec<usize>, npe: usize| {
+        if !flat.is_empty() {
+            let cnt = flat.len() / npe;
+            topo.push((ty, flat, (0..cnt as isize).collect::<Vec<_>>()));
+        }
+    };
+    push(Edge, edges.concat(), 2);
+    push(Triangle, tris.concat(), 3);
+    push(Quadrangle, quads.concat(), 4);
+    push(Tetrahedron, tets.concat(), 4);
+    push(Hexahedron, hexes.concat(), 8);
+    mesh_io::Mesh::from_raw_parts(space, coords, vec![0; nn], topo)
+}
+
+fn dual_outcome(mesh: &mesh_io::Mesh, threads: usize) -> Outcome {
+    match in_pool(threads, || {
+        let g = coupe_tools::dual(mesh);
+        let mut v: Vec<usize> = vec![g.rows(), g.cols()];
+        v.extend_from_slice(g.indptr().raw_storage());
+        v.push(usize::MAX);
+        v.extend_from_slice(g.indices());
+        v.push(usize::MAX);
+        v.extend(g.data().iter().map(|x| x.to_bits() as usize));
+        v
+    }) {
+        Caught::Ok(v) => Outcome::Ids(v),
+        Caught::Panic(m) => Outcome::Panic(panic_sig(&m)),
+        Caught::Hang => Outcome::Panic("hang".into()),
+    }
+}
+
+// ------------------------------------------------------------------ generator
+
+fn budget_reps(ctx: &Ctx) -> usize {
+    ctx.budget(3, 8)
+}
+
+pub fn generate(ctx: &mut Ctx) {
+    let quick = ctx.quick();
+    // ---- direct skeleton ops (model evaluates split trees) ----------------
+    // tiny sizes exhaustively small, then random
+    for n in 0..=6usize {
+        let v: Vec<i64> = (0..n).map(|_| ctx.rng.range(-9, 9)).collect();
+        run_op(ctx, &format!("parsum lit {} {}", n, join(&v)).trim().to_string());
+    }
+    for _ in 0..ctx.budget(20, 120) {
+        let n = match ctx.rng.usize(4) {
+            0 => ctx.rng.usize(40),
+            1 => 100 + ctx.rng.usize(2000),
+            2 => 4096 + ctx.rng.usize(9000),
+            _ => 10_000 + ctx.rng.usize(20_000),
+        };
+        let (lo, hi) = *ctx.rng.pick(&[(-9i64, 9i64), (0, 1), (-1000, 1000), (-1_000_000, 1_000_000), (5, 5)]);
+        let seed = ctx.rng.below(1 << 32);
+        run_op(ctx, &format!("parsum gen {} {} {} {}", seed, n, lo, hi));
+    }
+    for _ in 0..ctx.budget(12, 80) {
+        let dim = 2 + ctx.rng.usize(2);
+        let n = *ctx.rng.pick(&[0usize, 1, 2, 17, 1000, 5000, 12000, 30000]);
+        let (lo, hi) = *ctx.rng.pick(&[(-9i64, 9i64), (0, 1), (-100_000, 100_000)]);
+        let seed = ctx.rng.below(1 << 32);
+        run_op(ctx, &format!("bbox {} {} {} {} {}", dim, seed, n, lo, hi));
+    }
+    for _ in 0..ctx.budget(24, 200) {
+        let n = match ctx.rng.usize(5) {
+            0 => ctx.rng.usize(20),
+            1 => 100 + ctx.rng.usize(4000),
+            _ => 8192 + ctx.rng.usize(22_000), // with_min_len(4096): below 8192 items rayon cannot split
+        };
+        // small alphabets give ties at the nearest distance
+        let (lo, hi) = *ctx.rng.pick(&[(0i64, 20i64), (0, 200), (-5000, 5000), (0, 3)]);
+        let wmax = *ctx.rng.pick(&[1i64, 9, 1000]);
+        // the cut: anywhere around the data, including outside (no item on the right)
+        let a = ctx.rng.range(lo - 3, hi + 3);
+        let b = ctx.rng.range(lo - 3, hi + 3);
+        let (mn, mx) = (a.min(b), a.max(b));
+        let seed = ctx.rng.below(1 << 32);
+        run_op(ctx, &format!("rcbsplit {} {} {} {} {} {} {}", seed, n, lo, hi, wmax, mn, mx));
+    }
+    for _ in 0..ctx.budget(24, 200) {
+        let n = match ctx.rng.usize(5) {
+            0 => ctx.rng.usize(12),
+            1 => 50 + ctx.rng.usize(3000),
+            _ => 5000 + ctx.rng.usize(25_000),
+        };
+        let wmax = *ctx.rng.pick(&[1i64, 1, 9, 1000]);
+        let k = 2 + ctx.rng.usize(7);
+        // modifiers as the code builds them: fat parts (q+1)/s, regular parts q/s
+        let q = 1 + ctx.rng.usize(4);
+        let fat = ctx.rng.usize(k);
+        let s = fat * (q + 1) + (k - fat) * q;
+        let mut m = String::new();
+        for i in 0..k {
+            m.push_str(&format!(" {} {}", if i < fat { q + 1 } else { q }, s));
+        }
+        let seed = ctx.rng.below(1 << 32);
+        run_op(ctx, &format!("mjsplit {} {} {} {}{}", seed, n, wmax, k, m));
+    }
+
+    // ---- the partitioners, two input streams ---------------------------------
+    let algos = ["rcb", "rcbf", "rib", "hilbert", "zcurve", "mj", "kmeans"];
+    let per_algo = ctx.budget(10, 60);
+    for algo in algos {
+        for c in 0..per_algo {
+            // alternate the streams; the exact-frame stream only matters where a frame is used,
+            // but its symmetric clouds are also the tie-heavy inputs for rcb / mj
+            let stream = if c % 2 == 0 { "g" } else { "x" };
+            let dim = 2 + ctx.rng.usize(2);
+            let big = [5000usize, 8192, 9000, 12_000, 16_384, 20_000, 30_000];
+            let n = if algo == "kmeans" {
+                *ctx.rng.pick(&[300usize, 1000, 2500, 5000])
+            } else if c == per_algo - 1 {
+                *ctx.rng.pick(&[0usize, 1, 2, 3, 7, 64])
+            } else if !quick || ctx.rng.chance(3, 4) {
+                *ctx.rng.pick(&big)
+            } else {
+                500 + ctx.rng.usize(4000)
+            };
+            let shape = if stream == "g" { ctx.rng.usize(7) } else { ctx.rng.usize(9) };
+            let wmode = ctx.rng.usize(4);
+            let seed = ctx.rng.below(1 << 32);
+            let (p1, p2) = match algo {
+                "rcb" | "rcbf" | "rib" => (1 + ctx.rng.usize(5), ctx.rng.usize(3)),
+                "hilbert" => (2 + ctx.rng.usize(15), *ctx.rng.pick(&[4usize, 8, 12, 16, 21])),
+                "zcurve" => (2 + ctx.rng.usize(15), *ctx.rng.pick(&[2usize, 4, 6, 8, 10])),
+                "mj" => (2 + ctx.rng.usize(19), 1 + ctx.rng.usize(4)),
+                _ => (2 + ctx.rng.usize(5), ctx.rng.usize(36)),
+            };
+            run_op(ctx, &format!("part {} {} {} {} {} {} {} {} {} -", algo, stream, dim, n, shape, wmode, seed, p1, p2));
+        }
+    }
+    // ---- dual graph ----------------------------------------------------------
+    for _ in 0..ctx.budget(8, 40) {
+        let kind = *ctx.rng.pick(&["tri", "quad", "mixed", "hex", "tet"]);
+        let (nx, ny, nz) = if kind == "hex" || kind == "tet" {
+            (3 + ctx.rng.usize(14), 3 + ctx.rng.usize(14), 2 + ctx.rng.usize(8))
+        } else {
+            (10 + ctx.rng.usize(120), 10 + ctx.rng.usize(120), 1)
+        };
+        let seed = ctx.rng.below(1 << 32);
+        run_op(ctx, &format!("dual {} {} {} {} {} -", kind, nx, ny, nz, seed));
+    }
+    run_op(ctx, "dual tri 1 1 1 1 -");
+    // ---- malformed stream: both sides answer `bad-op` --------------------------
+    for m in [
+        "parsum lit 3 1 2",
+        "parsum gen 1 5 9 0",
+        "bbox 4 1 10 0 5",
+        "rcbsplit 1 10 5 0 1 0 1",
+        "mjsplit 1 10 1 0",
+        "part foo g 2 10 0 0 1 1 1 -",
+        "part rcb g 4 10 0 0 1 1 1 -",
+        "part rcb q 2 10 0 0 1 1 1 -",
+        "dual tri 3 3",
+        "frobnicate 1 2 3",
+    ] {
+        ctx.count("malformed");
+        run_op(ctx, m);
+    }
+    let ps = pool_sizes(quick);
+    ctx.notes.push(format!(
+        "pool sizes {:?} x {} repetitions per case (warm pools built once); every run is compared with the first run under 1 thread",
+        ps,
+        budget_reps(ctx)
+    ));
+}
+
+// ------------------------------------------------------------------ data shared with the driver
+
+/// `n` integers in `lo..=hi` from the harness PRNG seeded with `seed` (the Lean
+/// driver has the same generator: `Driver/C06.lean: genInts`).
+fn gen_ints(seed: u64, n: usize, lo: i64, hi: i64) -> Vec<i64> {
+    let mut r = Rng::new(seed);
+    (0..n).map(|_| r.range(lo, hi)).collect()
+}
+
+fn toks<'a>(op: &'a str) -> Vec<&'a str> {
+    op.split_whitespace().collect()
+}
+
+fn bad(ctx: &mut Ctx, op: &str) {
+    ctx.record(op.to_string(), "bad-op".into(), false);
+}
 
 pub fn run_op(ctx: &mut Ctx, op: &str) {
-    ctx.record(op.to_string(), "bad-op".into(), false);
+    let t = toks(op);
+    match t.first().copied() {
+        Some("part") => op_part(ctx, op, &t),
+        Some("dual") => op_dual(ctx, op, &t),
+        Some("parsum") => op_parsum(ctx, op, &t),
+        Some("bbox") => op_bbox(ctx, op, &t),
+        Some("rcbsplit") => op_rcbsplit(ctx, op, &t),
+        Some("mjsplit") => op_mjsplit(ctx, op, &t),
+        _ => bad(ctx, op),
+    }
+}
+
+fn op_part(ctx: &mut Ctx, op: &str, t: &[&str]) {
+    if t.len() != 11 {
+        return bad(ctx, op);
+    }
+    let p = |i: usize| t[i].parse::<u64>().ok();
+    let (Some(dim), Some(n), Some(shape), Some(wmode), Some(seed), Some(p1), Some(p2)) = (p(3), p(4), p(5), p(6), p(7), p(8), p(9)) else {
+        return bad(ctx, op);
+    };
+    let algo = t[1].to_string();
+    let stream = t[2].to_string();
+    if !(dim == 2 || dim == 3)
+        || !["rcb", "rcbf", "rib", "hilbert", "zcurve", "mj", "kmeans"].contains(&algo.as_str())
+        || !(stream == "g" || stream == "x")
+        || n > 200_000
+    {
+        return bad(ctx, op);
+    }
+    let pools = pool_sizes(ctx.quick());
+    let reps = budget_reps(ctx);
+    let (a2, s2) = (algo.clone(), stream.clone());
+    let res = catch_timeout(600, move || {
+        part_case(a2, s2, dim as usize, n as usize, shape as usize, wmode as usize, seed, p1 as usize, p2 as usize, pools, reps)
+    });
+    let prefix = t[..10].join(" ");
+    match res {
+        Caught::Ok(r) => {
+            ctx.count(&format!("algo:{}", algo));
+            ctx.count(&format!("stream:{}:{}", stream, algo));
+            ctx.count(&format!("dim:{}", dim));
+            ctx.count(&format!("n:{}", if r.n < 4096 { "<4096" } else if r.n < 8192 { "4096..8191" } else { ">=8192" }));
+            for c in &r.counts {
+                ctx.count(c);
+            }
+            ctx.count(if r.out.starts_with("same") { "part:same" } else { "part:differs" });
+            let idx = ctx.record(format!("{} {}", prefix, r.digest), r.out, r.n >= 1000);
+            if let Some((sig, what)) = r.fail {
+                ctx.fail(idx, &sig, what);
+            }
+        }
+        Caught::Panic(m) => {
+            let idx = ctx.record(format!("{} -", prefix), format!("harness-panic {}", m), false);
+            ctx.fail(idx, "harness-panic", m);
+        }
+        Caught::Hang => {
+            let idx = ctx.record(format!("{} -", prefix), "hang".into(), true);
+            ctx.fail(idx, "hang", "no result within 600 s".into());
+        }
+    }
+}
+
+fn op_dual(ctx: &mut Ctx, op: &str, t: &[&str]) {
+    if t.len() != 7 || !["tri", "quad", "mixed", "hex", "tet"].contains(&t[1]) {
+        return bad(ctx, op);
+    }
+    let p = |i: usize| t[i].parse::<u64>().ok();
+    let (Some(nx), Some(ny), Some(nz), Some(seed)) = (p(2), p(3), p(4), p(5)) else {
+        return bad(ctx, op);
+    };
+    if nx == 0 || ny == 0 || nz == 0 || nx * ny * nz > 200_000 {
+        return bad(ctx, op);
+    }
+    let mesh = build_grid_mesh(t[1], nx as usize, ny as usize, nz as usize, seed);
+    let reference = dual_outcome(&mesh, 1);
+    let digest = reference.digest();
+    let mut diff = None;
+    for &th in &pool_sizes(ctx.quick()) {
+        for rep in 0..budget_reps(ctx) {
+            let o = dual_outcome(&mesh, th);
+            if o != reference && diff.is_none() {
+                diff = Some((th, rep, o.digest()));
+            }
+        }
+    }
+    ctx.count(&format!("dual:{}", t[1]));
+    let cells = match &reference {
+        Outcome::Ids(v) => v[0],
+        _ => 0,
+    };
+    let prefix = t[..6].join(" ");
+    match diff {
+        None => {
+            ctx.count("dual:same");
+            ctx.record(format!("{} {}", prefix, digest), format!("same {}", digest), cells >= 100);
+        }
+        Some((th, rep, d)) => {
+            let idx = ctx.record(format!("{} {}", prefix, digest), format!("differs T={} rep={} {}", th, rep, d), true);
+            ctx.fail(idx, "nondeterministic-dual-graph", format!("CSR arrays under {} threads (rep {}) differ from 1 thread", th, rep));
+        }
+    }
+}
+
+fn parse_data(t: &[&str]) -> Option<Vec<i64>> {
+    match *t.first()? {
+        "gen" if t.len() == 5 => {
+            let seed: u64 = t[1].parse().ok()?;
+            let n: usize = t[2].parse().ok()?;
+            let lo: i64 = t[3].parse().ok()?;
+            let hi: i64 = t[4].parse().ok()?;
+            if n > 1_000_000 || lo > hi || lo < -(1 << 40) || hi > (1 << 40) {
+                return None;
+            }
+            Some(gen_ints(seed, n, lo, hi))
+        }
+        "lit" => {
+            let n: usize = t.get(1)?.parse().ok()?;
+            if t.len() != n + 2 {
+                return None;
+            }
+            t[2..].iter().map(|x| x.parse().ok()).collect()
+        }
+        _ => None,
+    }
+}
+
+fn op_parsum(ctx: &mut Ctx, op: &str, t: &[&str]) {
+    let Some(xs) = parse_data(&t[1..]) else {
+        return bad(ctx, op);
+    };
+    // oracle: plain sequential loops
+    let mut s = 0i64;
+    let mut q = 0i64;
+    let mut neg = 0usize;
+    let mut mn = i64::MAX;
+    let mut mx = i64::MIN;
+    for &x in &xs {
+        s += x;
+        q += x * x;
+        if x < 0 {
+            neg += 1;
+        }
+        mn = mn.min(x);
+        mx = mx.max(x);
+    }
+    let line = |s: i64, q: i64, neg: usize, mm: Option<(i64, i64)>, coll: bool| {
+        format!(
+            "sum {} sq {} neg {} {} collect {}",
+            s,
+            q,
+            neg,
+            match mm {
+                Some((a, b)) => format!("min {} max {}", a, b),
+                None => "min - max -".into(),
+            },
+            if coll { "ok" } else { "REORDERED" }
+        )
+    };
+    // (an empty range still has one leaf, whose initial accumulator `reduce_with` returns)
+    let expect = line(s, q, neg, Some((mn, mx)), true);
+    let mut first_bad: Option<String> = None;
+    let mut leaves_max = 0usize;
+    let pools: &[usize] = if ctx.quick() { &[1, 2, 4, 16] } else { &[1, 2, 3, 4, 7, 8, 16] };
+    for &th in pools {
+        for max_len in [0usize, 1, 3, 64, 1000] {
+            let xs = &xs;
+            let r = in_pool(th, move || {
+                macro_rules! it {
+                    () => {{
+                        let i = xs.par_iter();
+                        // `with_max_len(m)` forces at least len/m leaves
+                        i.with_max_len(if max_len == 0 { usize::MAX } else { max_len })
+                    }};
+                }
+                let s1: i64 = it!().cloned().sum();
+                // the number of leaves rayon really used is observed through the fold
+                let (s2, leaves) = it!()
+                    .fold(|| (0i64, 1usize), |a, x| (a.0 + *x, a.1))
+                    .reduce(|| (0i64, 0usize), |a, b| (a.0 + b.0, a.1 + b.1));
+                let q: i64 = it!().map(|x| x * x).sum();
+                let neg = it!().filter(|x| **x < 0).count();
+                let mm = it!()
+                    .fold_with((i64::MAX, i64::MIN), |(lo, hi), v| (if *v < lo { *v } else { lo }, if hi < *v { *v } else { hi }))
+                    .reduce_with(|a, b| (a.0.min(b.0), a.1.max(b.1)));
+                let coll: Vec<i64> = it!().map(|x| x + 1).collect();
+                let coll_ok = coll.iter().zip(xs.iter()).all(|(a, b)| *a == b + 1) && coll.len() == xs.len();
+                (s1, s2, q, neg, mm, coll_ok, leaves)
+            });
+            match r {
+                Caught::Ok((s1, s2, q, neg, mm, coll_ok, leaves)) => {
+                    leaves_max = leaves_max.max(leaves);
+                    let got = line(s1, q, neg, mm, coll_ok);
+                    if (got != expect || s1 != s2) && first_bad.is_none() {
+                        first_bad = Some(format!("T={} max_len={}: {} (fold/reduce sum {})", th, max_len, got, s2));
+                    }
+                }
+                Caught::Panic(m) => {
+                    if first_bad.is_none() {
+                        first_bad = Some(format!("panic {}", m));
+                    }
+                }
+                Caught::Hang => {}
+            }
+        }
+    }
+    ctx.count("op:parsum");
+    ctx.count(if leaves_max > 1 { "parsum:rayon-split-observed" } else { "parsum:single-leaf-only" });
+    match first_bad {
+        None => {
+            ctx.record(op.to_string(), expect, xs.len() >= 2);
+        }
+        Some(b) => {
+            let idx = ctx.record(op.to_string(), format!("rayon-differs {}", b), true);
+            ctx.fail(idx, "rayon-skeleton-schedule-dependent", b);
+        }
+    }
+}
+
+fn op_bbox(ctx: &mut Ctx, op: &str, t: &[&str]) {
+    if t.len() != 6 {
+        return bad(ctx, op);
+    }
+    let Some(dim) = t[1].parse::<usize>().ok().filter(|d| *d == 2 || *d == 3) else {
+        return bad(ctx, op);
+    };
+    let Some(n) = t[3].parse::<usize>().ok() else {
+        return bad(ctx, op);
+    };
+    let spec = ["gen", t[2], &(n * dim).to_string(), t[4], t[5]].iter().map(|s| s.to_string()).collect::<Vec<_>>();
+    let spec_ref: Vec<&str> = spec.iter().map(|s| s.as_str()).collect();
+    let Some(flat) = parse_data(&spec_ref) else {
+        return bad(ctx, op);
+    };
+    // oracle
+    let expect = if n == 0 {
+        "bbox none".to_string()
+    } else {
+        let mut mn = vec![i64::MAX; dim];
+        let mut mx = vec![i64::MIN; dim];
+        for p in flat.chunks(dim) {
+            for k in 0..dim {
+                mn[k] = mn[k].min(p[k]);
+                mx[k] = mx[k].max(p[k]);
+            }
+        }
+        format!("bbox {} {}", join(&mn), join(&mx))
+    };
+    let mut first_bad = None;
+    for &th in &pool_sizes(ctx.quick()) {
+        for _ in 0..2 {
+            let got = if dim == 2 {
+                let pts: Vec<Point2D> = flat.chunks(2).map(|p| Point2D::new(p[0] as f64, p[1] as f64)).collect();
+                in_pool(th, move || coupe::BoundingBox::<2>::from_points(pts.par_iter().cloned()).map(|b| (b.p_min.iter().cloned().collect::<Vec<f64>>(), b.p_max.iter().cloned().collect::<Vec<f64>>())))
+            } else {
+                let pts: Vec<Point3D> = flat.chunks(3).map(|p| Point3D::new(p[0] as f64, p[1] as f64, p[2] as f64)).collect();
+                in_pool(th, move || coupe::BoundingBox::<3>::from_points(pts.par_iter().cloned()).map(|b| (b.p_min.iter().cloned().collect::<Vec<f64>>(), b.p_max.iter().cloned().collect::<Vec<f64>>())))
+            };
+            let line = match got {
+                Caught::Ok(None) => "bbox none".to_string(),
+                Caught::Ok(Some((a, b))) => {
+                    let a: Vec<i64> = a.iter().map(|x| *x as i64).collect();
+                    let b: Vec<i64> = b.iter().map(|x| *x as i64).collect();
+                    format!("bbox {} {}", join(&a), join(&b))
+                }
+                Caught::Panic(m) => format!("panic {}", m),
+                Caught::Hang => "hang".into(),
+            };
+            if line != expect && first_bad.is_none() {
+                first_bad = Some(format!("T={}: {}", th, line));
+            }
+        }
+    }
+    ctx.count("op:bbox");
+    match first_bad {
+        None => {
+            ctx.record(op.to_string(), expect, n >= 2);
+        }
+        Some(b) => {
+            let idx = ctx.record(op.to_string(), format!("differs {}", b), true);
+            ctx.fail(idx, "bbox-schedule-dependent", b);
+        }
+    }
+}
+
+fn op_rcbsplit(ctx: &mut Ctx, op: &str, t: &[&str]) {
+    if t.len() != 8 {
+        return bad(ctx, op);
+    }
+    let pi = |i: usize| t[i].parse::<i64>().ok();
+    let (Some(seed), Some(n), Some(lo), Some(hi), Some(wmax), Some(mn), Some(mx)) = (pi(1), pi(2), pi(3), pi(4), pi(5), pi(6), pi(7)) else {
+        return bad(ctx, op);
+    };
+    if n < 0 || n > 1_000_000 || lo > hi || lo < -(1 << 20) || hi > (1 << 20) || wmax < 1 || wmax > 1_000_000 || mn > mx || mn < -(1 << 20) || mx > (1 << 20) {
+        return bad(ctx, op);
+    }
+    let coords = gen_ints(seed as u64, n as usize, lo, hi);
+    let weights = gen_ints(seed as u64 ^ 0xabcdef, n as usize, 1, wmax);
+    // oracle (independent of the model): one or two evaluations of the cut, on integers x4
+    let c4: Vec<i64> = coords.iter().map(|c| 4 * c).collect();
+    let t1 = 2 * (mn + mx);
+    let t2 = 3 * mn + mx;
+    let eval = |target4: i64| {
+        let cnt = c4.iter().filter(|c| **c < target4).count();
+        let w: i64 = c4.iter().zip(&weights).filter(|(c, _)| **c < target4).map(|(_, w)| *w).sum();
+        let piv = c4.iter().filter(|c| **c >= target4).min().map(|c| c / 4);
+        (cnt, w, piv)
+    };
+    let (cnt1, w1, piv1) = eval(t1);
+    let (exp_split, exp_w, exp_piv, exp_pos4, iters) = if piv1.is_some() {
+        (cnt1, w1, piv1, t1, 1)
+    } else {
+        let (cnt2, w2, piv2) = eval(t2);
+        if piv2.is_some() {
+            (cnt2, w2, piv2, t2, 2)
+        } else {
+            // all items left twice: everything goes left, weight = sum, split_pos = max = first target
+            (n as usize, weights.iter().sum(), None, t1, 2)
+        }
+    };
+    let expect = format!(
+        "split {} {} {} pos4 {}",
+        exp_split,
+        exp_w,
+        match exp_piv {
+            Some(p) => p.to_string(),
+            None => "none".into(),
+        },
+        exp_pos4
+    );
+    let mut first_bad = None;
+    let mut tie_variants = std::collections::HashSet::new();
+    for &th in &pool_sizes(ctx.quick()) {
+        for _ in 0..2 {
+            let cf: Vec<f32> = coords.iter().map(|c| *c as f32).collect();
+            let wv = weights.clone();
+            let r = in_pool(th, move || coupe::verif::rcb::par_rcb_split::<1>([cf], wv, 0, 1.0, mn as f32, mx as f32));
+            let line = match r {
+                Caught::Ok((ids, split, wl, pos)) => {
+                    let left_ok = ids[..split].iter().all(|i| exp_piv.map(|p| coords[*i] < p).unwrap_or(true))
+                        && ids[split..].iter().all(|i| exp_piv.map(|p| coords[*i] >= p).unwrap_or(false));
+                    let mut sorted = ids.clone();
+                    sorted.sort_unstable();
+                    let perm_ok = sorted.iter().enumerate().all(|(i, x)| i == *x);
+                    let piv = ids[split..].iter().map(|i| coords[*i]).min();
+                    // which arrangement was produced (depends on the index of the pivot on ties)
+                    tie_variants.insert(fnv(ids.iter().map(|x| *x as u64)));
+                    format!(
+                        "split {} {} {} pos4 {}{}",
+                        split,
+                        wl,
+                        match piv {
+                            Some(p) => p.to_string(),
+                            None => "none".into(),
+                        },
+                        (pos * 4.0) as i64,
+                        if left_ok && perm_ok { "" } else { " BAD-SETS" }
+                    )
+                }
+                Caught::Panic(m) => format!("panic {}", m),
+                Caught::Hang => "hang".into(),
+            };
+            if line != expect && first_bad.is_none() {
+                first_bad = Some(format!("T={}: {}", th, line));
+            }
+        }
+    }
+    ctx.count("op:rcbsplit");
+    ctx.count(&format!("rcbsplit:iterations-{}", iters));
+    ctx.count(if exp_piv.is_some() { "rcbsplit:pivot-found" } else { "rcbsplit:all-left" });
+    if tie_variants.len() > 1 {
+        ctx.count("rcbsplit:arrangement-differs-sets-equal");
+    }
+    match first_bad {
+        None => {
+            ctx.record(op.to_string(), expect, n >= 2);
+        }
+        Some(b) => {
+            let idx = ctx.record(op.to_string(), format!("differs {} (expected {})", b, expect), true);
+            ctx.fail(idx, "rcb-split-schedule-dependent", b);
+        }
+    }
+}
+
+fn op_mjsplit(ctx: &mut Ctx, op: &str, t: &[&str]) {
+    if t.len() < 5 {
+        return bad(ctx, op);
+    }
+    let (Some(seed), Some(n), Some(wmax), Some(k)) = (t[1].parse::<u64>().ok(), t[2].parse::<usize>().ok(), t[3].parse::<i64>().ok(), t[4].parse::<usize>().ok()) else {
+        return bad(ctx, op);
+    };
+    if t.len() != 5 + 2 * k || k == 0 || k > 64 || n > 1_000_000 || wmax < 1 || wmax > 1_000_000 {
+        return bad(ctx, op);
+    }
+    let mut mods = vec![];
+    for i in 0..k {
+        let (Some(a), Some(b)) = (t[5 + 2 * i].parse::<u32>().ok(), t[6 + 2 * i].parse::<u32>().ok()) else {
+            return bad(ctx, op);
+        };
+        if b == 0 || a == 0 {
+            return bad(ctx, op);
+        }
+        mods.push(a as f64 / b as f64);
+    }
+    let ws = gen_ints(seed, n, if wmax == 1 { 1 } else { 0 }, wmax);
+    let wf: Vec<f64> = ws.iter().map(|w| *w as f64).collect();
+    let perm: Vec<usize> = (0..n).collect();
+    // oracle: first position whose inclusive prefix sum exceeds the threshold (the code's own
+    // f64 thresholds, compared the way the final walk compares them)
+    let total: f64 = wf.iter().sum();
+    let mut consumed = 0.0f64;
+    let mut expect = vec![];
+    for m in &mods[..k - 1] {
+        consumed += total * m;
+        let thr = consumed;
+        let mut sum = 0.0f64;
+        let mut idx = 0usize;
+        while idx < n {
+            let v = sum + wf[idx];
+            if v < thr || approx_ulps_eq(thr, v) {
+                sum = v;
+                idx += 1;
+            } else {
+                break;
+            }
+        }
+        expect.push(idx);
+    }
+    let expect_line = format!("splits {}", join(&expect)).trim().to_string();
+    let mut first_bad = None;
+    for &th in &pool_sizes(ctx.quick()) {
+        for _ in 0..2 {
+            let (wf2, perm2, mods2) = (&wf, &perm, &mods);
+            let r = in_pool(th, move || coupe::verif::multi_jagged::compute_split_positions(wf2, perm2, mods2));
+            let line = match r {
+                Caught::Ok(v) => format!("splits {}", join(&v)).trim().to_string(),
+                Caught::Panic(m) => format!("panic {}", m),
+                Caught::Hang => "hang".into(),
+            };
+            if line != expect_line && first_bad.is_none() {
+                first_bad = Some(format!("T={}: {}", th, line));
+            }
+        }
+    }
+    ctx.count("op:mjsplit");
+    match first_bad {
+        None => {
+            ctx.record(op.to_string(), expect_line, n >= 2 && k >= 2);
+        }
+        Some(b) => {
+            let idx = ctx.record(op.to_string(), format!("differs {} (expected {})", b, expect_line), true);
+            ctx.fail(idx, "mj-split-schedule-dependent", b);
+        }
+    }
+}
+
+/// `approx::Ulps::default().eq(a, b)` for f64 (epsilon = f64::EPSILON, 4 ulps), written out.
+fn approx_ulps_eq(a: f64, b: f64) -> bool {
+    if (a - b).abs() <= f64::EPSILON {
+        return true;
+    }
+    if a.signum() != b.signum() {
+        return false;
+    }
+    let (x, y) = (a.to_bits(), b.to_bits());
+    if x <= y {
+        y - x <= 4
+    } else {
+        x - y <= 4
+    }
 }
